@@ -49,6 +49,14 @@ type pool struct {
 	bheights []uint64
 	// big payloads, made on demand: (base data index, marshalled length) -> index into datas / datBlob
 	big map[[2]int]int
+
+	// hdrs[:nOrd] are the headers above; hdrs[nOrd:] are the "awkward" headers (addAwkward): their hash has, in some
+	// textual form a key could be built from, neighbours under key normalisation - nbrs[index] lists them.
+	nOrd int
+	nbrs map[int][]nbr
+	// how many bytes of a hash the Coq terms of this case carry (hashProj, or all of them when the history has reads
+	// by caller-supplied hashes)
+	proj int
 }
 
 // a height whose 8-byte little-endian record ends a run of low bytes: the neighbours bound-1 / bound differ in a byte
@@ -162,14 +170,14 @@ func (p *pool) base(i int) int {
 	if i < p.nBase || i >= 3*p.nBase {
 		return i
 	}
-	return (i - p.nBase) / 2
+	return (i - p.nBase) / 2 // (the awkward headers, from nOrd on, have no siblings)
 }
 func (p *pool) group(i int) []int { b := p.base(i); return []int{b, p.sibling(b, 1), p.sibling(b, 2)} }
 
 func rbytes(r *rand.Rand, n int) []byte { b := make([]byte, n); r.Read(b); return b }
 
 func newPool(r *rand.Rand) *pool {
-	p := &pool{big: map[[2]int]int{}}
+	p := &pool{big: map[[2]int]int{}, nbrs: map[int][]nbr{}, proj: hashProj}
 	p.heights = []uint64{1, 2, 3, 4, 5, 10, 1000000, 1<<64 - 1}
 	for _, h := range p.heights {
 		nv := 1 + r.Intn(3)
@@ -266,6 +274,7 @@ func newPool(r *rand.Rand) *pool {
 		p.hdrs = append(p.hdrs, sh)
 		p.hdrBlob = append(p.hdrBlob, b)
 	}
+	p.nOrd = len(p.hdrs)
 	return p
 }
 
@@ -331,6 +340,10 @@ type Op struct {
 	Junk bool   `json:"junk,omitempty"` // byhash on a hash that was never stored
 	Sz   int    `json:"sz,omitempty"`   // save: > 0 = the data is pool data D grown to a marshalled blob of Sz bytes (pool.bigData)
 	Sib  int    `json:"sib,omitempty"`  // hand-written corpus files only: H means same-hash sibling Sib (1, 2) of base header H; resolved when loaded
+	Raw  bool   `json:"raw,omitempty"`  // byhash / sigbyhash: the hash is the caller-supplied byte string X (hex; any length, also empty), H is not used
+	X    string `json:"x,omitempty"`
+	Awk  int    `json:"awk,omitempty"` // hand-written corpus files only: the header is awkward header number Awk (1, 2, ..: one per awkward textual form) of the pool ..
+	Nb   int    `json:"nb,omitempty"`  // .. and, on a by-hash read, the hash is normalisation neighbour number Nb (1, 2, ..) of that header's hash; resolved when loaded
 }
 type Item struct {
 	T  string `json:"t"` // op reopen crash fault
@@ -353,17 +366,17 @@ func genOp(r *rand.Rand, p *pool) *Op {
 	case x < 14:
 		return &Op{K: "height"}
 	case x < 40:
-		return &Op{K: "save", H: r.Intn(len(p.hdrs)), D: r.Intn(len(p.datas)), S: r.Intn(len(p.sigs))}
+		return &Op{K: "save", H: r.Intn(p.nOrd), D: r.Intn(len(p.datas)), S: r.Intn(len(p.sigs))}
 	case x < 48:
 		return &Op{K: "getblock", N: h}
 	case x < 60:
-		return &Op{K: "byhash", H: r.Intn(len(p.hdrs)), Junk: r.Intn(10) == 0}
+		return &Op{K: "byhash", H: r.Intn(p.nOrd), Junk: r.Intn(10) == 0}
 	case x < 65:
 		return &Op{K: "getheader", N: h}
 	case x < 70:
 		return &Op{K: "getsig", N: h}
 	case x < 78:
-		return &Op{K: "sigbyhash", H: r.Intn(len(p.hdrs)), Junk: r.Intn(10) == 0}
+		return &Op{K: "sigbyhash", H: r.Intn(p.nOrd), Junk: r.Intn(10) == 0}
 	case x < 83:
 		return &Op{K: "updstate", S: r.Intn(len(p.states))}
 	case x < 87:
@@ -386,7 +399,7 @@ func genHistory(r *rand.Rand, p *pool, maxLen int) []Item {
 		case x < 16:
 			op := genOp(r, p)
 			if r.Intn(2) == 0 {
-				op = &Op{K: "save", H: r.Intn(len(p.hdrs)), D: r.Intn(len(p.datas)), S: r.Intn(len(p.sigs))}
+				op = &Op{K: "save", H: r.Intn(p.nOrd), D: r.Intn(len(p.datas)), S: r.Intn(len(p.sigs))}
 			}
 			h = append(h, Item{T: "crash", Op: op, Kc: r.Intn(3)})
 		case x < 26:
@@ -413,7 +426,7 @@ func genWriteOp(r *rand.Rand, p *pool) (*Op, *Op) {
 	case 0:
 		return &Op{K: "setheight", N: p.pickHeight(r)}, &Op{K: "height"}
 	case 1:
-		h := r.Intn(len(p.hdrs))
+		h := r.Intn(p.nOrd)
 		rd := &Op{K: "getblock", N: p.hdrs[h].Height()}
 		if r.Intn(3) == 0 {
 			rd = &Op{K: "byhash", H: h}
@@ -589,7 +602,7 @@ func genHeightStream(r *rand.Rand, p *pool) []Item {
 			}
 			set(b)
 		case 4: // blocks saved at the boundary heights, the height following them
-			for k := 3 * p.nBase; k < len(p.hdrs); k++ {
+			for k := 3 * p.nBase; k < p.nOrd; k++ {
 				op(&Op{K: "save", H: k, D: r.Intn(6), S: r.Intn(len(p.sigs))})
 				set(p.hdrs[k].Height())
 				op(&Op{K: "getblock", N: p.hdrs[k].Height()})
@@ -685,7 +698,7 @@ func genBigPayloadStream(r *rand.Rand, p *pool, c int) []Item {
 			reads(v2)
 		}
 		if r.Intn(3) == 0 { // a fresh height with a big payload, cut as well
-			k := 3*p.nBase + r.Intn(len(p.hdrs)-3*p.nBase)
+			k := 3*p.nBase + r.Intn(p.nOrd-3*p.nBase)
 			fresh := &Op{K: "save", H: k, D: r.Intn(6), S: r.Intn(len(p.sigs)), Sz: sz}
 			h = append(h, Item{T: "crash", Op: fresh, Kc: r.Intn(2)})
 			reads(k)
@@ -822,6 +835,9 @@ func (r *runner) exec(o *Op) out {
 		if o.Junk {
 			hash = junkHash()
 		}
+		if o.Raw {
+			hash = unhex(o.X)
+		}
 		h, d, err := r.st.GetBlockByHash(ctx, hash)
 		if err != nil {
 			return out{kind: "err"}
@@ -843,6 +859,9 @@ func (r *runner) exec(o *Op) out {
 		hash := []byte(p.hdrs[o.H].Hash())
 		if o.Junk {
 			hash = junkHash()
+		}
+		if o.Raw {
+			hash = unhex(o.X)
 		}
 		s, err := r.st.GetSignatureByHash(ctx, hash)
 		if err != nil {
@@ -971,7 +990,50 @@ func (o *oracle) byHash(hidx int, junk bool) (refBlock, bool) {
 	return refBlock{}, false
 }
 
+// a read by a caller-supplied hash: the block currently stored under exactly these bytes, or nothing.  A value that
+// was never the hash of any header handed to SaveBlockData must find nothing - whatever it looks like.
+func (o *oracle) observeRaw(op *Op, got out) {
+	raw := unhex(op.X)
+	var want refBlock
+	found := false
+	for _, b := range o.blocks {
+		if bytes.Equal(o.p.hdrs[b.h].Hash(), raw) {
+			want, found = b, true
+		}
+	}
+	everSaved := false
+	for _, l := range []map[uint64][]refBlock{o.ackedBlocks, o.failedBlocks} {
+		for _, bs := range l {
+			for _, b := range bs {
+				if bytes.Equal(o.p.hdrs[b.h].Hash(), raw) {
+					everSaved = true
+				}
+			}
+		}
+	}
+	name, kind := "GetBlockByHash", "block"
+	if op.K == "sigbyhash" {
+		name, kind = "GetSignatureByHash", "sig"
+	}
+	ok := got.kind == kind && found && ((kind == "block" && got.a == uint64(want.h) && got.b == uint64(want.d)) || (kind == "sig" && got.a == uint64(want.s)))
+	if !found {
+		ok = got.kind == "err"
+	}
+	if ok {
+		return
+	}
+	if got.kind == kind && !everSaved {
+		o.fail("by-hash-read-of-a-never-saved-hash-finds-a-block", fmt.Sprintf("%s(%X) - %d bytes that were never the hash of a saved header - returned %v", name, raw, len(raw), got))
+		return
+	}
+	o.fail("read-by-hash-not-latest-write", fmt.Sprintf("%s(%X)=%v want %v %v", name, raw, got, want, found))
+}
+
 func (o *oracle) observe(op *Op, got out) {
+	if op.Raw && (op.K == "byhash" || op.K == "sigbyhash") {
+		o.observeRaw(op, got)
+		return
+	}
 	switch op.K {
 	case "setheight":
 		if got.kind != "unit" {
@@ -1176,6 +1238,7 @@ func (c *caseResult) keyName(k string) string {
 }
 
 type caseResult struct {
+	p       *pool
 	keyIdx  map[string]int
 	keyDefs []string
 	outs    []out
@@ -1192,7 +1255,7 @@ type caseResult struct {
 }
 
 func runCase(p *pool, hist []Item, disk bool) (res *caseResult) {
-	res = &caseResult{}
+	res = &caseResult{p: p}
 	defer func() {
 		if x := recover(); x != nil {
 			res.viol = append(res.viol, "panic")
@@ -1309,7 +1372,7 @@ func runCase(p *pool, hist []Item, disk bool) (res *caseResult) {
 		if e.Key == "/t" {
 			res.traw = vgen.BytesN(e.Value)
 		}
-		res.image = append(res.image, fmt.Sprintf("(%s, %s)", res.keyName(projKey(e.Key)), decodeVal(p, e.Key, e.Value)))
+		res.image = append(res.image, fmt.Sprintf("(%s, %s)", res.keyName(projKey(p, e.Key)), decodeVal(p, e.Key, e.Value)))
 	}
 	for _, w := range r.cds.Log {
 		res.shapes = append(res.shapes, res.shapeOf(w))
@@ -1321,9 +1384,9 @@ func (c *caseResult) shapeOf(w crashds.Write) string {
 	var ps []string
 	for _, pr := range w.Prims {
 		if pr.Del {
-			ps = append(ps, "SDel "+c.keyName(projKey(pr.Key)))
+			ps = append(ps, "SDel "+c.keyName(projKey(c.p, pr.Key)))
 		} else {
-			ps = append(ps, "SPut "+c.keyName(projKey(pr.Key)))
+			ps = append(ps, "SPut "+c.keyName(projKey(c.p, pr.Key)))
 		}
 	}
 	return vgen.List(ps)
@@ -1370,12 +1433,14 @@ func stateBlob(s types.State) []byte {
 
 // The model sees a 4-byte projection of each hash (the first four bytes; pool hashes are checked to
 // stay pairwise distinct under it); index keys in the image and the write log are projected the same
-// way.  The full-length key builder is compared on real hashes in keyPairs.
+// way.  The full-length key builder is compared on real hashes in keyPairs.  A history with reads by
+// caller-supplied hashes (usesRaw) is not projected: the model gets every hash and every index key in full
+// (pool.proj = 32), since those values are chosen to be close to stored hashes.
 const hashProj = 4
 
-func projKey(k string) string {
-	if strings.HasPrefix(k, "/i/") && len(k) > 3+2*hashProj {
-		return k[:3+2*hashProj]
+func projKey(p *pool, k string) string {
+	if strings.HasPrefix(k, "/i/") && len(k) > 3+2*p.proj {
+		return k[:3+2*p.proj]
 	}
 	return k
 }
@@ -1384,7 +1449,7 @@ func (p *pool) coqDefs(used map[int]bool) []string {
 	var defs []string
 	seen := map[string]string{}
 	for i, h := range p.hdrs {
-		pr := string(h.Hash()[:hashProj])
+		pr := string(h.Hash()[:p.proj])
 		if full, ok := seen[pr]; ok && full != string(h.Hash()) {
 			panic("hash projection collision")
 		}
@@ -1392,7 +1457,7 @@ func (p *pool) coqDefs(used map[int]bool) []string {
 		if !used[i] {
 			continue
 		}
-		defs = append(defs, fmt.Sprintf("Definition H%d := {| hid := %s; hheight := %s; hhash := %s |}.", i, vgen.N(uint64(i)), vgen.N(h.Height()), vgen.Bytes(h.Hash()[:hashProj])))
+		defs = append(defs, fmt.Sprintf("Definition H%d := {| hid := %s; hheight := %s; hhash := %s |}.", i, vgen.N(uint64(i)), vgen.N(h.Height()), vgen.Bytes(h.Hash()[:p.proj])))
 	}
 	defs = append(defs, "Definition H999999 := {| hid := 999999; hheight := 0; hhash := \"\" |}.",
 		"Definition H999998 := {| hid := 999998; hheight := 0; hhash := \"\" |}.")
@@ -1401,8 +1466,11 @@ func (p *pool) coqDefs(used map[int]bool) []string {
 
 func opCoq(p *pool, o *Op) string {
 	hashOf := func() string {
+		if o.Raw {
+			return vgen.Bytes(unhex(o.X))
+		}
 		if o.Junk {
-			return vgen.Bytes(junkHash()[:hashProj])
+			return vgen.Bytes(junkHash()[:p.proj])
 		}
 		return fmt.Sprintf("(hhash H%d)", o.H)
 	}
@@ -1474,6 +1542,71 @@ func keyPairs(p *pool) []string {
 	out = append(out, fmt.Sprintf("(state_key, %s)", vgen.Str(ds.NewKey(store.VerifStateKey()).String())),
 		fmt.Sprintf("(height_key, %s)", vgen.Str(ds.NewKey(store.VerifHeightKey()).String())))
 	return out
+}
+
+// key correspondence for a history with caller-supplied hashes: for each of them and for every awkward stored hash the
+// real database key (getIndexKey through GenerateKey, then ds.NewKey) against the model's - both the builder
+// (index_key) and the normalisation of the hex text (index_text_key (hex x): equal by C14_index_key_normal_full, "/i"
+// for the empty hash); and for the neighbour texts themselves the real GenerateKey / ds.NewKey against the model's
+// normalisation key_clean (index_text_key) - texts with doubled slashes and dot elements.
+func rawKeyPairs(p *pool, hist []Item) []string {
+	var out []string
+	seen := map[string]bool{}
+	addHash := func(x []byte) {
+		if seen[string(x)] {
+			return
+		}
+		seen[string(x)] = true
+		real := vgen.Str(ds.NewKey(store.VerifIndexKey(x)).String())
+		out = append(out, fmt.Sprintf("(index_text_key (hex %s), %s)", vgen.Bytes(x), real))
+		if len(x) > 0 {
+			out = append(out, fmt.Sprintf("(index_key %s, %s)", vgen.Bytes(x), real))
+		}
+	}
+	addText := func(t string) {
+		if seen["t"+t] {
+			return
+		}
+		seen["t"+t] = true
+		out = append(out, fmt.Sprintf("(index_text_key %s, %s)", vgen.Str(t), vgen.Str(ds.NewKey(store.GenerateKey([]string{"i", t})).String())))
+	}
+	for _, it := range hist {
+		o := it.Op
+		if o == nil || (o.K != "save" && o.K != "byhash" && o.K != "sigbyhash") {
+			continue
+		}
+		if o.Raw {
+			addHash(unhex(o.X))
+		} else if o.H >= p.nOrd {
+			addHash(p.hdrs[o.H].Hash())
+			for _, n := range p.nbrs[o.H] {
+				addText(n.mine)
+				addText(n.text)
+			}
+		}
+	}
+	return out
+}
+
+// what a caller-supplied hash is, for the distribution: a normalisation neighbour of a pool hash (in which textual
+// form), or one of the generic shapes
+func (p *pool) rawClass(x []byte) string {
+	for _, ns := range p.nbrs {
+		for _, n := range ns {
+			if bytes.Equal(n.raw, x) {
+				return "normalisation-neighbour-of-a-header-hash(" + n.form + ")"
+			}
+		}
+	}
+	switch {
+	case len(x) == 0:
+		return "empty"
+	case len(x) != 32:
+		return fmt.Sprintf("other-length(%d)", len(x))
+	case bytes.ContainsAny(x[:8], "/.") && (x[0] == '/' || x[0] == '.'):
+		return "32-bytes-starting-like-a-path"
+	}
+	return "32-bytes-near-a-header-hash"
 }
 
 func shrink(p *pool, hist []Item, disk bool, sig string) []Item {
@@ -1568,11 +1701,21 @@ func TestVerif(t *testing.T) {
 	for ji, j := range jobs {
 		r := caseRng(j.seed, j.c)
 		p := newPool(r)
+		p.addAwkward(rand.New(rand.NewSource(j.seed*1000003 + int64(j.c) + 7777777))) // its own PRNG: the draws of r stay what they were
 		hist := j.hist
 		for i := range hist { // corpus files name same-hash siblings relative to a base header
 			if o := hist[i].Op; o != nil && o.Sib != 0 {
 				c := *o
 				c.H, c.Sib = p.sibling(o.H%p.nBase, o.Sib), 0
+				hist[i].Op = &c
+			}
+			if o := hist[i].Op; o != nil && o.Awk != 0 && len(p.hdrs) > p.nOrd {
+				c := *o
+				c.H = p.nOrd + (o.Awk-1)%(len(p.hdrs)-p.nOrd)
+				if ns := p.nbrs[c.H]; o.Nb != 0 {
+					c.H, c.Raw, c.X = 0, true, fmt.Sprintf("%x", ns[(o.Nb-1)%len(ns)].raw)
+				}
+				c.Awk, c.Nb = 0, 0
 				hist[i].Op = &c
 			}
 		}
@@ -1583,6 +1726,9 @@ func TestVerif(t *testing.T) {
 			} else if j.c%10 == 2 {
 				hist = genHeightStream(r, p)
 				res.Count("history:byte-boundary-height-stream")
+			} else if j.c%10 == 6 {
+				hist = genClientHashStream(r, p)
+				res.Count("history:caller-supplied-hash-stream")
 			} else if j.c%4 == 3 {
 				hist = genFaultStream(r, p)
 				res.Count("history:fault-read-retry-reopen-stream")
@@ -1592,6 +1738,10 @@ func TestVerif(t *testing.T) {
 			} else {
 				hist = genHistory(r, p, maxLen)
 			}
+		}
+		if usesRaw(hist) {
+			p.proj = 32 // caller-supplied hashes are close to stored ones: no projection
+			res.Count("history:reads-by-caller-supplied-hashes(hashes-and-index-keys-in-full)")
 		}
 		cr := runCase(p, hist, j.disk)
 		if cr.err != nil {
@@ -1653,9 +1803,14 @@ func TestVerif(t *testing.T) {
 						readSince[it.Op.N] = true
 					}
 				case "byhash":
-					if it.T == "op" && !it.Op.Junk {
+					if it.T == "op" && !it.Op.Junk && !it.Op.Raw {
 						readSince[p.hdrs[it.Op.H].Height()] = true
 					}
+				}
+				if it.Op.Raw {
+					res.Count("read:by-caller-supplied-hash:" + p.rawClass(unhex(it.Op.X)))
+				} else if (it.Op.K == "save" || it.Op.K == "byhash" || it.Op.K == "sigbyhash") && it.Op.H >= p.nOrd && !it.Op.Junk {
+					res.Count(it.Op.K + ":header-whose-hash-has-normalisation-neighbours(" + p.nbrs[it.Op.H][0].form + ")")
 				}
 			}
 			if it.T == "crash" {
@@ -1703,13 +1858,20 @@ func TestVerif(t *testing.T) {
 		}
 		used := map[int]bool{}
 		for _, it := range hist {
-			if it.Op != nil && (it.Op.K == "save" || it.Op.K == "byhash" || it.Op.K == "sigbyhash") {
+			if it.Op != nil && (it.Op.K == "save" || it.Op.K == "byhash" || it.Op.K == "sigbyhash") && !it.Op.Raw {
 				used[it.Op.H] = true
 			}
 		}
 		kp := "[]"
 		if ji%20 == 0 {
 			kp = vgen.List(keyPairs(p))
+		}
+		if usesRaw(hist) {
+			kpr := rawKeyPairs(p, hist)
+			if ji%20 == 0 {
+				kpr = append(keyPairs(p), kpr...)
+			}
+			kp = vgen.List(kpr)
 		}
 		mod := fmt.Sprintf("Module C%d.\n%s\n%s\nDefinition c : scase := {| sc_hist := %s;\n sc_outs := %s;\n sc_image := %s;\n sc_shapes := %s;\n sc_faults := %s;\n sc_traw := %s |}.\nDefinition keys_ok : bool := forallb (fun e => String.eqb (fst e) (snd e)) %s.\nEnd C%d.",
 			ji, strings.Join(p.coqDefs(used), "\n"), strings.Join(cr.keyDefs, "\n"), hc, vgen.List(outs), vgen.List(cr.image), vgen.List(cr.shapes), vgen.List(cr.faults), cr.traw, kp, ji)
@@ -1721,7 +1883,7 @@ func TestVerif(t *testing.T) {
 		}
 	}
 	res.Distinct = len(distinct)
-	res.Rule = "histories of 1..maxLen items over store operations (26% saves, crashes inside operations with 0..2 atomic writes surviving, transient write faults inside operations = write attempt 0 or 1 of the operation returns an error once and the store stays open, reopen) on pools of 8 heights x 1-3 headers each so that overwrites at one height with a different hash occur, every header with two same-hash siblings (same Header, other Signature / Signer inside the SignedHeader, other stored bytes; compared by the pool index of the stored bytes) so that overwrites with the SAME hash and other bytes occur; every 4th case is a same-hash overwrite stream (save, some of the five kinds of read, save of a same-hash sibling with the same or other data and signature record - sometimes faulted or crashed -, all five reads, reopen or crash, all five reads); every 4th case is a fault / read / retry / read / reopen / read stream over the four writing operations between random operations; every history ends with reads of everything acknowledged and of everything a failed operation tried to write, a close/reopen, and the same reads again; heights of SetHeight / reads are drawn (1 in 4) from the neighbourhood of a per-case byte boundary of the 8-byte little-endian height record (256, a multiple of 256, 2^16 .. 2^56, k*2^(8j), a power of two up to 2^63, the last multiple of 256 below 2^64, a random large height; bound-2 .. bound+2 and bound+254 .. bound+257), three extra headers sit at bound-1, bound, bound+1; every 10th case is a byte-boundary height stream (SetHeight / Height walking up across the boundary, down across it, there and back, over the next multiple of 256, random picks; crashes and write faults inside SetHeight, reopens, saves at those heights); every 10th case is a big-payload stream: an occupied height is overwritten by a block whose marshalled data is 2^e-1, 2^e, 2^e+1 or up to 1.5*2^e bytes long, e cycling through 10..23 with the case number (1 KiB .. 8 MiB and above), the overwrite cut at EVERY crash prefix (0, 1, 2 atomic writes survive) and hit by a write fault on its first and on its second write attempt, all five reads of old and new block after each; every completed save is checked to reach the datastore in ONE atomic write (write log compared with the model; if it made several, the database image after every proper prefix of them is materialised and read: all-old or all-new); the raw bytes of the final /t record are compared with the model's encoding of its height; every 25th case on a real on-disk badger with true close/reopen; non-trivial = at least 3 items and one save; distinct = distinct Coq history terms"
+	res.Rule = "histories of 1..maxLen items over store operations (26% saves, crashes inside operations with 0..2 atomic writes surviving, transient write faults inside operations = write attempt 0 or 1 of the operation returns an error once and the store stays open, reopen) on pools of 8 heights x 1-3 headers each so that overwrites at one height with a different hash occur, every header with two same-hash siblings (same Header, other Signature / Signer inside the SignedHeader, other stored bytes; compared by the pool index of the stored bytes) so that overwrites with the SAME hash and other bytes occur; every 4th case is a same-hash overwrite stream (save, some of the five kinds of read, save of a same-hash sibling with the same or other data and signature record - sometimes faulted or crashed -, all five reads, reopen or crash, all five reads); every 4th case is a fault / read / retry / read / reopen / read stream over the four writing operations between random operations; every history ends with reads of everything acknowledged and of everything a failed operation tried to write, a close/reopen, and the same reads again; heights of SetHeight / reads are drawn (1 in 4) from the neighbourhood of a per-case byte boundary of the 8-byte little-endian height record (256, a multiple of 256, 2^16 .. 2^56, k*2^(8j), a power of two up to 2^63, the last multiple of 256 below 2^64, a random large height; bound-2 .. bound+2 and bound+254 .. bound+257), three extra headers sit at bound-1, bound, bound+1; every 10th case is a byte-boundary height stream (SetHeight / Height walking up across the boundary, down across it, there and back, over the next multiple of 256, random picks; crashes and write faults inside SetHeight, reopens, saves at those heights); every 10th case is a big-payload stream: an occupied height is overwritten by a block whose marshalled data is 2^e-1, 2^e, 2^e+1 or up to 1.5*2^e bytes long, e cycling through 10..23 with the case number (1 KiB .. 8 MiB and above), the overwrite cut at EVERY crash prefix (0, 1, 2 atomic writes survive) and hit by a write fault on its first and on its second write attempt, all five reads of old and new block after each; every completed save is checked to reach the datastore in ONE atomic write (write log compared with the model; if it made several, the database image after every proper prefix of them is materialised and read: all-old or all-new); the raw bytes of the final /t record are compared with the model's encoding of its height; every 10th case is a caller-supplied-hash stream: GetBlockByHash / GetSignatureByHash take any bytes, so besides hashes of pool headers the reads use values chosen against the way keys are built - each pool gets, for every binary-to-text form of Go's standard library whose text can hold '/' or '.' (the raw bytes, base64 std / raw-std, ascii85; found by looking at their output), one header whose REAL SHA-256 hash has neighbours under key normalisation in that form (fields redrawn until it has: the text has a doubled slash, a leading / trailing slash or a dot element), the neighbours being all other 32-byte values whose text is the same after path.Clean (the dropped '/' or './' put back elsewhere; checked with the real path.Clean and a strict decode); the stream saves such a header, reads it by its hash, then reads block and signature by the neighbours and by generic near-values (one bit off, one byte short / long, empty, the hex text instead of the bytes, reversed, '////..', '....', '../h/1'-like bytes) - before the save, after it, after a reopen, a crash or a write fault inside a second save, after the height is overwritten by another hash, at the end: every one of them must find nothing; those histories reach Coq with full-length hashes and index keys, and the real key of every such value (and GenerateKey / ds.NewKey of the neighbour texts) is compared with the model's index_key / key_clean; every 25th case on a real on-disk badger with true close/reopen; non-trivial = at least 3 items and one save; distinct = distinct Coq history terms"
 	res.Cases = len(cases)
 	header := "From Coq Require Import String Ascii NArith List Bool.\nFrom Verif Require Import Base.KV Base.Keys Model.Store Check.StoreCheck."
 	defsAll = append([]string{"Definition bad_case : scase := {| sc_hist := []; sc_outs := [None]; sc_image := []; sc_shapes := []; sc_faults := []; sc_traw := [] |}."}, defsAll...)
